@@ -113,8 +113,8 @@ let w_case (line : string) : string =
         | _ -> Some { h_fd = zi (-1); h_closing = false } in
       let sys = if sys = "" then zi 0 else zi (int_of_string sys) in
       if api = '2' then Printf.sprintf "w%s" (string_of_z (write2 s sh))
-      else Printf.sprintf "w%s F%s" (string_of_z (try_write2 false s sh sys))
-             (string_of_z (try_write2 true s sh sys))
+      else Printf.sprintf "w%s H%s" (string_of_z (try_write2 true s sh sys))
+             (string_of_z (try_write2 false s sh sys))   (* H = before c5357ca, not compared *)
   | _ -> failwith "bad w case"
 
 let () =
